@@ -978,11 +978,113 @@ func registerJSONModel(e *Engine) {
 		}
 		return mkStrSlice(names), true
 	}
+	// Indent: a scan over the text; structural bytes are concrete, symbolic bytes are string content
+	e.intrinsics["encoding/json.Indent"] = func(x *Exec, fn *ssa.Function, a []Value) (Value, bool) {
+		out, msg := jsonIndentTerms(termsOfSlice(a[1]), cstr(x, a[2]), cstr(x, a[3]))
+		if msg != "" {
+			return x.errorValue(msg), true
+		}
+		wf := x.eng.methodByName(fn.Params[0].Type(), "Write")
+		if wf == nil {
+			panic(unsupported("json.Indent: destination without Write method"))
+		}
+		res := x.callFunction(wf, []Value{a[0], sliceOfBytes(out)}, nil).(TupleVal)
+		return res[1], true
+	}
+	e.intrinsics["encoding/json.MarshalIndent"] = func(x *Exec, fn *ssa.Function, a []Value) (Value, bool) {
+		iv := a[0].(*IfaceVal)
+		b := bytesOfStr("null")
+		if iv.T != nil {
+			var err Value
+			b, err = x.jsonMarshal(iv.V, iv.T)
+			if err != nil {
+				return TupleVal{&SliceVal{Nil: true}, err}, true
+			}
+		}
+		out, msg := jsonIndentTerms(b, cstr(x, a[1]), cstr(x, a[2]))
+		if msg != "" {
+			return TupleVal{&SliceVal{Nil: true}, x.errorValue(msg)}, true
+		}
+		return TupleVal{sliceOfBytes(out), nilIface}, true
+	}
+	e.allowFns["(*github.com/go-openapi/swag.File).Read"] = true
+	e.allowFns["(*github.com/go-openapi/swag.File).Close"] = true
 	e.allowFns["(*encoding/json.RawMessage).UnmarshalJSON"] = true
 	e.allowFns["(encoding/json.RawMessage).MarshalJSON"] = true
 	for _, n := range []string{"WriteJSON", "ReadJSON", "ConcatJSON"} {
 		e.allowFns["github.com/go-openapi/swag."+n] = true
 	}
+}
+
+// jsonIndentTerms follows encoding/json's appendIndent on a text of the model (concrete structure,
+// possibly symbolic string content)
+func jsonIndentTerms(src []*Term, prefix, indent string) ([]*Term, string) {
+	var out []*Term
+	newline := func(depth int) {
+		out = append(out, mkBV(8, '\n'))
+		out = append(out, bytesOfStr(prefix)...)
+		for i := 0; i < depth; i++ {
+			out = append(out, bytesOfStr(indent)...)
+		}
+	}
+	needIndent, depth, inStr, esc := false, 0, false, false
+	for _, t := range src {
+		conc := t.IsConst()
+		c := byte(0)
+		if conc {
+			c = byte(t.Val)
+		}
+		if inStr {
+			out = append(out, t)
+			if !conc {
+				continue // symbolic content byte: plain by the model's assumption
+			}
+			switch {
+			case esc:
+				esc = false
+			case c == '\\':
+				esc = true
+			case c == '"':
+				inStr = false
+			}
+			continue
+		}
+		if !conc {
+			return nil, "json.Indent: symbolic byte outside a string"
+		}
+		if c == ' ' || c == '\t' || c == '\r' || c == '\n' {
+			continue
+		}
+		if needIndent && c != ']' && c != '}' {
+			needIndent = false
+			depth++
+			newline(depth)
+		}
+		switch c {
+		case '"':
+			inStr = true
+			out = append(out, t)
+		case '{', '[':
+			needIndent = true
+			out = append(out, t)
+		case ',':
+			out = append(out, t)
+			newline(depth)
+		case ':':
+			out = append(out, t, mkBV(8, ' '))
+		case '}', ']':
+			if needIndent {
+				needIndent = false
+			} else {
+				depth--
+				newline(depth)
+			}
+			out = append(out, t)
+		default:
+			out = append(out, t)
+		}
+	}
+	return out, ""
 }
 
 type jsonEncoderState struct{ writer Value }
